@@ -48,7 +48,11 @@ class LeftStrip(Obligation):
             longer=[s2 for q2,s2 in cand if len(q2)>len(q)]
             cases.append(z3.Implies(z3.And(sq,*[z3.Not(s) for s in longer]),bytes_eq(got,path[len(q):]).z() if len(got)==len(path)-len(q) else z3.BoolVal(False)))
         cases.append(z3.Implies(z3.And(*[z3.Not(s) for _,s in cand]) if cand else z3.BoolVal(True),bytes_eq(got,path).z() if len(got)==len(path) else z3.BoolVal(False)))
-        r,m=run.check_sat(z3.Not(z3.And(*cases)))
+        bad=z3.Not(z3.And(*cases))
+        # prefer a counterexample that can be replayed on a real file system (letters only), else any
+        nice=z3.And(*[z3.And(z3.UGE(x,0x61),z3.ULE(x,0x7a)) for x in list(path)+[y for q in (pres or []) for y in q]]) if path else z3.BoolVal(False)
+        r,m=run.check_sat(z3.And(bad,nice))
+        if r!=z3.sat: r,m=run.check_sat(bad)
         if r==z3.sat:
             rec['viol']={'kind':'not_longest_prefix','known_key':None,'scenario':scn(m),'predicted':'str:'+bytes(model_value(m,x) for x in got).decode(errors='replace'),'what':'the recorded key is not the path minus the longest matching strip prefix'}; return rec
         w='stripped' if len(got)<len(path) else 'unchanged'
@@ -160,7 +164,7 @@ class Record(Obligation):
     hash_order='fixed'
     def __init__(self,seed=0,known=(),flen=2,nlinks=5,**kw):
         self.seed=seed; self.flen=flen; self.nlinks=nlinks
-        self.bounds={'ghost file system':'files r/left/w, r/right/w (optionally r/left/x) with 0..%d free content bytes each'%flen,'path arguments':'[r], [r/left, r/right] or [r/left] (non-overlapping)',
+        self.bounds={'ghost file system':'files r/left/w, r/right/w (optionally r/left/x or r/r/w) with 0..%d free content bytes each'%flen,'path arguments':'[r], [r/left, r/right] or [r/left] (non-overlapping)',
                      'strip prefixes':'none; [r/]; [r/left/, r/right/] (keys collide); [r/, r/left/] (longest wins)','hash algorithms':'default, [sha256], [sha256, sha512], [md5] (unknown)',
                      'read schedule':'every split of each file into non-empty chunks; optionally one failing read','symbolic links':'none, or one link to a file: relative target in the same directory, absolute target, relative target through .., or a chain of two links (links to directories and link cycles are outside the claim)'}
         self.witnesses=['recorded','duplicate_key_error','unknown_algorithm_error','io_error']; self.seen=set()
@@ -176,7 +180,9 @@ class Record(Obligation):
         def content(name):
             n=run.pick(self.flen+1,'len_'+name); return [z3.BitVec('%s_%d'%(name,i),8) for i in range(n)]
         fs={'r/left/w':content('lw'),'r/right/w':content('rw')}
-        if run.pick(2,'extra'): fs['r/left/x']=content('lx')
+        ex=run.pick(3,'extra')
+        if ex==1: fs['r/left/x']=content('lx')
+        if ex==2: fs['r/r/w']=content('nw')       # a directory nested in a directory of the same name: a strip prefix is removed once, not repeatedly
         links=[{},{'r/left/l':'w'},{'r/left/l':'@ROOT/r/left/w'},{'r/right/l':'../left/w'},{'r/left/l':'l2','r/left/l2':'w'}][run.pick(self.nlinks,'link')]
         paths=[['r'],['r/left','r/right'],['r/left']][run.pick(3,'paths')]
         strips=[None,['r/'],['r/left/','r/right/'],['r/','r/left/']][run.pick(4,'strips')]
